@@ -12,11 +12,17 @@ other path (temporary files).  Contract text (taken from the property statement,
   raised error: every external call in turn fails in its natural way (OSError; write fails after half of the data):
                 the writer either returns with the new content in place, or raises with the destination in its previous
                 state or holding exactly the new content; nothing temporary is left unless rmtree itself was made to fail
+  sigkill     : the same kill clause with the writer running in a forked child that is really killed (SIGKILL) at the
+                boundary; the directory it leaves must also equal what the in-process kill emulation leaves
   format fail : a formatting failure leaves the destination and the directory as they were
   resume      : apply_to interrupted (kill or OSError) at every record boundary and at every external-call boundary
                 inside a record write, then re-run on the same store: the final store equals the store of an
                 uninterrupted run (and that equals the explicit expected store), and no record that was completely
-                stored before the interruption is processed again
+                stored before the interruption is processed again (records stored as NotCompleted may be retried: the
+                statement leaves that open); kill interruptions are run both emulated and as a real SIGKILL of a child
+
+A failing fault schedule is minimised (faults are dropped while the same symptom shows) before it becomes the key:
+key = contract / call site[variant] / initial destination / minimal schedule / first symptom.
 
 The harness (speclib/c19_replay.py, full mode) intercepts the externals; an audit hook checks that no file-system
 mutation happens outside an intercepted external, so that "every boundary" really is every boundary."""
@@ -335,7 +341,8 @@ def norm_leftover(rel):
     return "/".join(out)
 
 
-def run_writer(wname, dest0, faults):
+def run_writer(wname, dest0, faults, sigkill=False):
+    """sigkill=True: the writer runs in a child process and a scheduled kill is a real SIGKILL of that process"""
     from speclib import c19_replay as R
     warnings.filterwarnings("ignore")
     w = WRITERS[wname]
@@ -352,25 +359,77 @@ def run_writer(wname, dest0, faults):
         if dest0 == "old":
             pre = old_bytes(fname, opts)
             dest.write_bytes(pre)
-        script = R.Script([], full=True, by_name={lab: ("kill" if kind == "kill" else "fail") for lab, kind in faults})
-        outcome = "return"
-        with R.audited(script, work), R.patched(script):
-            try:
-                write(root / arg)
-            except R.Kill:
-                outcome = "killed"
-            except BaseException as e:
-                outcome = f"raise {type(e).__name__}"
-                detail = str(e)[:120]
+        by_name = {lab: ("kill" if kind == "kill" else "fail") for lab, kind in faults}
+        detail = ""
+        if sigkill:
+            outcome, log = fork_and_run(wname, root / arg, by_name)
+            script = R.Script([], full=True)
+            script.log = log
+        else:
+            script = R.Script([], full=True, by_name=by_name)
+            outcome = "return"
+            with R.audited(script, work), R.patched(script):
+                try:
+                    write(root / arg)
+                except R.Kill:
+                    outcome = "killed"
+                except BaseException as e:
+                    outcome = f"raise {type(e).__name__}"
+                    detail = str(e)[:120]
         state, why = classify(dest, pre, fname, expect, opts)
         leftovers = sorted(norm_leftover(str(p.relative_to(root))) for p in root.rglob("*") if p not in (dest, by))
         return {"outcome": outcome, "dest": state, "why": why, "leftovers": leftovers,
                 "bystander": by.exists() and by.read_text() == BYSTANDER, "log": list(script.log),
                 "names": [x.split(":", 1)[0] for x in script.log if not x.endswith(":killed-before")],
                 "failed": list(script.failed), "hit": list(script.hit), "unintercepted": sorted(set(script.unintercepted)),
-                "error": locals().get("detail", "")}
+                "error": detail}
     finally:
         shutil.rmtree(work, ignore_errors=True)
+
+
+def fork_and_run(wname, path, by_name):
+    """the writer runs in a forked child; a scheduled kill is a real SIGKILL of that child.  Returns (outcome, trace)"""
+    from speclib import c19_replay as R
+    rfd, wfd = os.pipe()
+    pid = os.fork()
+    if pid == 0:   # sacrificial process
+        code = 0
+        try:
+            os.close(rfd)
+            write, _ = WRITERS[wname][2]()
+            script = R.Script([], full=True, by_name=by_name)
+            script.real_kill = True
+            real_next = script.next
+
+            def next_(name):   # unbuffered trace: it must survive the kill
+                try:
+                    return real_next(name)
+                finally:
+                    os.write(wfd, f"EXT {script.log[-1]}\n".encode())
+            script.next = next_
+            try:
+                with R.patched(script):
+                    write(pathlib.Path(path))
+            except BaseException as e:
+                os.write(wfd, f"EXC {type(e).__name__}\n".encode())
+                code = 1
+        finally:
+            os._exit(code)
+    os.close(wfd)
+    chunks = []
+    while True:
+        b = os.read(rfd, 65536)
+        if not b:
+            break
+        chunks.append(b)
+    os.close(rfd)
+    _, status = os.waitpid(pid, 0)
+    lines = b"".join(chunks).decode().splitlines()
+    log = [x[4:] for x in lines if x.startswith("EXT ")]
+    if os.WIFSIGNALED(status):
+        return ("killed" if os.WTERMSIG(status) == 9 else f"signal-{os.WTERMSIG(status)}"), log
+    exc = [x[4:] for x in lines if x.startswith("EXC ")]
+    return (f"raise {exc[-1]}" if exc else "return"), log
 
 
 def labels(names):
@@ -489,6 +548,44 @@ def contract_faults(case):
             f"{res['leftovers']}, bystander intact {res['bystander']}; all symptoms {judge(dest0, minimal, res, opts)}")
 
 
+# ------------------------------------------------------------------------------------------------ real SIGKILL
+def gen_sigkill(tier, seed):
+    for wname in WRITERS:
+        for dest0 in ("absent", "old"):
+            for lk in discover(wname, dest0, ()):
+                yield [wname, dest0, [[lk, "kill"]]]
+                if tier == "thorough":   # a kill during the clean-up that follows a failing call
+                    for lj in later(discover(wname, dest0, (lk,)), lk):
+                        yield [wname, dest0, [[lk, "raise"], [lj, "kill"]]]
+
+
+def contract_sigkill(case):
+    """the same statement as 'faults', with the process really killed; also: the in-process emulation of the kill
+    must leave the same destination state as the real kill"""
+    wname, dest0, faults = case
+    opts = opts_of(wname)
+    res = run_writer(wname, dest0, faults, sigkill=True)
+    if res["outcome"] != "killed":
+        return ("fail", f"sigkill/{site_of(wname)}/{dest0}/{fault_pattern(faults)}/child-not-killed-{res['outcome'].replace(' ', '-')}",
+                f"{case}: child outcome {res['outcome']}, externals {res['log']}")
+    sym = judge(dest0, faults, res, opts)
+    if sym:   # not the kill's doing when the schedule without the kill already shows it: report under that key
+        r = contract_faults([wname, dest0, [f for f in faults if f[1] != "kill"]])
+        if r[0] == "fail" and r[1].endswith("/" + sym[0]):
+            return (r[0], r[1], r[2] + f" (seen again with a real SIGKILL: {faults})")
+    if sym:
+        return ("fail", f"sigkill/{site_of(wname)}/{dest0}/{fault_pattern(faults)}/{sym[0]}",
+                f"{wname}, destination initially {dest0}, schedule {faults}, process killed (SIGKILL) just before {faults[-1][0]}: externals "
+                f"{res['log']}; destination {res['dest']} {res['why']}, other paths {res['leftovers']}, bystander intact "
+                f"{res['bystander']}")
+    emu = run_writer(wname, dest0, faults)
+    if (emu["dest"], emu["why"], emu["leftovers"]) != (res["dest"], res["why"], res["leftovers"]):
+        return ("fail", f"sigkill/{site_of(wname)}/{dest0}/{fault_pattern(faults)}/emulated-kill-differs-from-real-kill",
+                f"{case}: real kill leaves {res['dest']} {res['why']} {res['leftovers']}, emulation leaves {emu['dest']} "
+                f"{emu['why']} {emu['leftovers']}")
+    return ("ok", True)
+
+
 # ------------------------------------------------------------------------------------------------ formatting failures
 def _bad_tree_collection():
     from cogent3.phylo.tree_collection import ScoredTreeCollection
@@ -514,7 +611,6 @@ FMTFAIL = {
     "table/bedgraph": ("util.table.write", "out.bedgraph", lambda p: _table().write(str(p))),
     "table/bedgraph.gz": ("util.table.write", "out.bedgraph.gz", lambda p: _table().write(str(p))),
     "table/writer-raises": ("util.table.write", "out.tsv", lambda p: _table().write(str(p), writer=_raising_writer)),
-    "table/bad-kwarg": ("util.table.write", "out.txt", lambda p: _table().write(str(p), nonsense=1)),
     "table/format=latex-bad-kwarg": ("util.table.write", "out.tex", lambda p: _table().write(str(p), justify=3)),
     "dictarray/format=bogus": ("util.dict_array.write", "out.txt", lambda p: _dictarray().write(str(p), format="bogus")),
     "tree/format=bogus": ("core.tree.write", "out.nwk", lambda p: _tree().write(str(p), format=3)),
@@ -603,7 +699,7 @@ def store_view(path):
     return out
 
 
-def run_apply(root, out, ids, mode, interrupt=None):
+def run_apply(root, out, ids, mode, interrupt=None, real_kill=False):
     """one session of apply_to.  interrupt: None | ["record", k] | ["inside", r, j, "kill"|"raise"] | ["observe"]
     returns (outcome, ids handed to the writer, log of externals of record r -- with "observe": one log per record)"""
     import cogent3.app.data_store as dsm
@@ -623,6 +719,8 @@ def run_apply(root, out, ids, mode, interrupt=None):
         def main(self, data, identifier=None):
             n = len(calls)
             if interrupt and interrupt[0] == "record" and n == interrupt[1]:
+                if real_kill:
+                    os.kill(os.getpid(), 9)
                 raise _Interrupt()
             calls.append(identifier)
             if interrupt and interrupt[0] == "observe":
@@ -636,6 +734,7 @@ def run_apply(root, out, ids, mode, interrupt=None):
                 j, kind = interrupt[2], interrupt[3]
                 trace = [["*", "ok"]] * j + [["*", "fail"]] if kind == "raise" else []
                 script = R.Script(trace, kill_before=j if kind == "kill" else None, full=True)
+                script.real_kill = real_kill
                 try:
                     with R.patched(script):
                         return orig(self, data=data, identifier=identifier)
@@ -655,6 +754,31 @@ def run_apply(root, out, ids, mode, interrupt=None):
         return outcome, calls, ext_log
     finally:
         dsm.is_master_process = old_master
+
+
+def run_apply_forked(root, out, ids, mode, interrupt):
+    """the session runs in a forked child and its interruption is a real SIGKILL of that child"""
+    rfd, wfd = os.pipe()
+    pid = os.fork()
+    if pid == 0:
+        try:
+            os.close(rfd)
+            res = run_apply(root, out, ids, mode, interrupt, real_kill=True)
+            os.write(wfd, json.dumps(res).encode())
+        finally:
+            os._exit(0)
+    os.close(wfd)
+    chunks = []
+    while True:
+        b = os.read(rfd, 65536)
+        if not b:
+            break
+        chunks.append(b)
+    os.close(rfd)
+    _, status = os.waitpid(pid, 0)
+    if os.WIFSIGNALED(status):
+        return "killed", ["<died>"], []
+    return tuple(json.loads(b"".join(chunks).decode()))
 
 
 def make_inputs(root, ids):
@@ -685,6 +809,7 @@ def gen_resume(tier, seed):
         yield [cfg, []]
         for k in range(n + 1):
             yield [cfg, [["record", k]]]
+            yield [cfg, [["record", k]], "sigkill"]
         counts = discover_records(cfg)
         for r in range(n):
             for j in range(counts[r] + 1):
@@ -692,6 +817,8 @@ def gen_resume(tier, seed):
                     if kind == "raise" and j == counts[r]:
                         continue
                     yield [cfg, [["inside", r, j, kind]]]
+                    if kind == "kill":
+                        yield [cfg, [["inside", r, j, kind]], "sigkill"]
         # two interruptions in a row
         pairs = [(a, b) for a in range(n + 1) for b in range(n + 1)]
         for a, b in (pairs if thorough else pairs[::3]):
@@ -724,7 +851,18 @@ def diff_store(got, want):
 
 
 def contract_resume(case):
-    cfg, interrupts = case
+    res = _contract_resume(case)
+    if res[0] == "fail" and len(case[1]) > 1:   # minimise: one of the interruptions alone may already do it
+        for it in case[1]:
+            r1 = _contract_resume([case[0], [it]] + list(case[2:]))
+            if r1[0] == "fail":
+                return (r1[0], r1[1], r1[2] + f" (found with {case[1]})")
+    return res
+
+
+def _contract_resume(case):
+    cfg, interrupts = case[0], case[1]
+    sigkill = len(case) > 2 and case[2] == "sigkill"
     ids = CONFIGS[cfg]
     warnings.filterwarnings("ignore")
     work = tempfile.mkdtemp(prefix="c19a_", dir=TMPBASE)
@@ -754,7 +892,7 @@ def contract_resume(case):
         history = []
         for n, it in enumerate(interrupts):
             before = store_view(out)
-            o, calls, log = run_apply(work, out, ids, "w" if n == 0 else "a", it)
+            o, calls, log = (run_apply_forked if sigkill else run_apply)(work, out, ids, "w" if n == 0 else "a", it)
             history.append((it, o, calls, log))
             if o != "return":
                 reached = True
@@ -777,7 +915,8 @@ def contract_resume(case):
         else:
             how = "several-interruptions(" + "+".join(sorted({describe(it).split("@")[0] + "@" + (
                 "record-boundary" if it[0] == "record" else "inside-record-write") for it in interrupts})) + ")"
-        desc = (f"inputs {ids}; sessions {[(h[0], h[1], h[2], h[3]) for h in history]}; store after the interruptions "
+        desc = (("interrupted sessions really killed (SIGKILL of a forked child); " if sigkill else "") +
+                f"inputs {ids}; sessions {[(h[0], h[1], h[2], h[3]) for h in history]}; store after the interruptions "
                 f"{after}; final session: outcome {o}, processed {calls}; final store {final}; uninterrupted store {ref}")
         if o != "return":
             return ("fail", f"resume/dir/{how}/resumed-run-{o.replace(' ', '-')}", desc)
@@ -810,6 +949,18 @@ BOUNDED = {
                 "code under the schedule's prefix; non-trivial when every scheduled fault was reached (otherwise skipped); "
                 "distinct by hash of the case",
     },
+    "sigkill": {
+        "gen": gen_sigkill, "contract": contract_sigkill,
+        "functions": ["util.io.atomic_write (all methods)", "util.io.open_zip (mode w)", "core.alignment._SequenceCollectionBase.write",
+                      "core.new_alignment.SequenceCollection.write", "core.tree.TreeNode.write", "util.table.Table.write",
+                      "util.dict_array.DictArray.write", "phylo.tree_collection.ScoredTreeCollection.write"],
+        "bound": f"all {len(WRITERS)} writer call shapes x destination {{absent, pre-existing}} x every external-call boundary "
+                 "(thorough: also every boundary after one failing call): the writer runs in a forked child process that "
+                 "is killed with SIGKILL at the boundary",
+        "rule": "a case = (writer, initial destination, boundary); the directory left by the dead process is judged by the "
+                "same statement as in 'faults', and must equal what the in-process kill emulation leaves; distinct by hash "
+                "of the case",
+    },
     "fmtfail": {
         "gen": gen_fmtfail, "contract": contract_fmtfail,
         "functions": ["core.alignment._SequenceCollectionBase.write", "core.new_alignment.SequenceCollection.write",
@@ -830,7 +981,8 @@ BOUNDED = {
                  "load_unaligned + min_length + write_seqs into a DataStoreDirectory; interruption after every prefix of "
                  "k records, and at every external-call boundary inside every record write x {kill, OSError}; two "
                  "interruptions in a row (quick: every third pair of record boundaries, thorough: all pairs); seeded "
-                 "sample of 2-3 mixed interruptions (12 quick / 120 thorough per configuration)",
+                 "sample of 2-3 mixed interruptions (12 quick / 120 thorough per configuration); every single kill also as "
+                 "a real SIGKILL of a forked child session",
         "rule": "a case = (input configuration, list of interruptions); each interrupted session and the final session "
                 "use fresh store and app objects on the same directory; skipped when no interruption point was reached; "
                 "distinct by hash of the case",
